@@ -38,6 +38,10 @@ def obligations(tier):
                        bounds="kind %d; 2 steps (register | parse) + final parse; 2 versions x 3 names each" % k))
     obls.append(CH("reference_property_naming", H, "ref_property_rules", t, mode="E1s", functions=["stix2.registration._validate_ref_props", "stix2.registration._validate_props"] + F[:4],
                    stubs=[REG], bounds="4 kinds x 2 versions x 14 property names (7 reference-named with 1..4 underscores, 7 look-alikes) x 6 property types"))
+    obls.append(CH("marking_definition_uses_registered_class", H, "marking_definition_forms", t, mode="E1s", functions=["stix2.v21.common.MarkingDefinition.__init__",
+                   "stix2.v20.common.MarkingDefinition.__init__", "stix2.v21.common.MarkingProperty.clean"] + F[:2], stubs=[REG],
+                   bounds="2 versions x 3 definition types (two registered custom markings, statement) x 7 forms of the definition (dict, instance of each registered "
+                          "class, built-in instances, JSON text, junk): refused, or an instance of the class registered for the type that round trips"))
     obls.append(JOB("type_name_rules", "props.j_regex", "job_type_names", 120, engine="re2z3", functions=F[10:11],
                     bounds="all strings of length 3..250 (regex inclusion: accepted => obeys the naming rule), both spec versions"))
     obls.append(JOB("property_name_rules_21", "props.j_regex", "job_prop_names", 120, engine="re2z3", functions=F[4:5], finding="C19-propname-chars",
